@@ -126,7 +126,8 @@ Inductive op :=
 | OBuild (c : N)
 | OGet (c k : N)
 | OSearch (c : N) (q : vec) (k : N)
-| OSearchMetric (q : vec) (k m : N).
+| OSearchMetric (q : vec) (k m : N)
+| OSearchFiltered (c : N) (q : vec) (k b strat : N).   (* filter: metadata field "tag" = b; strat 0 auto, 1 pre, 2 post *)
 
 (* which path a search takes *)
 Inductive path :=
@@ -172,6 +173,25 @@ Definition search_path (s : st) (c : N) (q : vec) (k : N) : path :=
                   if same_dim (snd e) q then PCached (e :: r)
                   else if dim_guard then PExact 0 (data (cget s c))
                   else if Nat.ltb (length q) (length (snd e)) then PPanic   (* simd::dot_product(stored, query) *)
+                  else PCached (e :: r)
+              | _ => PExact 0 (data (cget s c))
+              end
+  end.
+
+(* The implementation keys its cache map by collection NAME and stores the default collection's index
+   under the name "_default".  `slot` maps a collection to the collection whose cache entry its
+   searches consult: the identity for every named collection not called "_default" (then this is
+   search_path), but a named collection called "_default" reads the default collection's entry. *)
+Definition search_path_slot (slot : N -> N) (s : st) (c : N) (q : vec) (k : N) : path :=
+  match q with
+  | [] => PErr E_EMPTY
+  | _ => if N.eqb k 0 then PErr E_TOPK
+         else if zero_query q then PEmpty
+         else match cache (cget s (slot c)) with
+              | Some (e :: r) =>
+                  if same_dim (snd e) q then PCached (e :: r)
+                  else if dim_guard then PExact 0 (data (cget s c))
+                  else if Nat.ltb (length q) (length (snd e)) then PPanic
                   else PCached (e :: r)
               | _ => PExact 0 (data (cget s c))
               end
@@ -232,6 +252,65 @@ Definition step (s : st) (o : op) : st * out :=
       (s, match aget (data (cget s c)) k with Some v => RVec v | None => RErr E_NOTFOUND end)
   | OSearch _ _ _ => (s, RUnit)          (* outputs of searches are characterised through search_path *)
   | OSearchMetric _ _ _ => (s, RUnit)
+  | OSearchFiltered _ _ _ _ _ => (s, RUnit)
+  end.
+
+(* --- metadata (only the one field the filtered searches of the correspondence runs look at) ---
+   collection -> key -> value of the metadata field "tag".  It lives in the same stored record as
+   the vector: store_embedding / store_in_collection write a fresh record (the field disappears),
+   the *_with_metadata variants set it (the runs use tag = key mod 2). *)
+Definition tags := list (N * list (N * N)).
+Definition tget (t : tags) (c : N) : list (N * N) := match aget t c with Some x => x | None => [] end.
+Definition tstep (s : st) (t : tags) (o : op) : tags :=
+  match o with
+  | OStore c k (_ :: _) => aset t c (adel (tget t c) k)
+  | OStoreMeta c k (_ :: _) => aset t c (aset (tget t c) k (N.modulo k 2))
+  | ODelete c k => aset t c (adel (tget t c) k)
+  | OBatchStore kvs =>
+      if existsb (fun kv => match snd kv with [] => true | _ => false end) kvs then t
+      else aset t 0 (fold_left (fun x kv => adel x (fst kv)) kvs (tget t 0))
+  | OBatchDelete ks => aset t 0 (fold_left (fun x k => adel x k) ks (tget t 0))
+  | OClear => aset t 0 []
+  | ODeleteColl c => if created (cget s c) then aset t c [] else t
+  | _ => t
+  end.
+Definition matching (t : tags) (c b : N) (d : list (N * vec)) : list (N * vec) :=
+  filter (fun kv => match aget (tget t c) (fst kv) with Some x => N.eqb x b | None => false end) d.
+
+Inductive fpath :=
+| FErr (e : N)
+| FEmpty
+| FExact (m : list (N * vec))                                   (* exact search over the matching vectors *)
+| FCachedOrExact (snap m : list (N * vec))                      (* candidates from the cached index; or the exact fallback *)
+| FPostNoFallback (d m : list (N * vec))                        (* first k matching of the exact top 3k; nothing else *)
+| FPostCached (snap m : list (N * vec))
+| FPanic.
+
+Variable post_fallback : bool.   (* does post-filtering fall back to the exact filtered search when it comes up short *)
+
+(* search_similar_filtered / search_filtered_in_collection with the default FilteredSearchConfig
+   values (selectivity threshold 1/10 over a sample of up to 100 keys, oversample factor 3) *)
+Definition filtered_path (s : st) (t : tags) (c : N) (q : vec) (k b strat : N) : fpath :=
+  match q with
+  | [] => FErr E_EMPTY
+  | _ =>
+    if N.eqb k 0 then FErr E_TOPK
+    else if zero_query q then FEmpty
+    else
+      let d := data (cget s c) in
+      let m := matching t c b d in
+      let cnt := N.of_nat (length d) in
+      let chosen := if N.eqb strat 0
+                    then (if N.eqb cnt 0 then 2 else if N.ltb (10 * N.of_nat (length m)) cnt then 1 else 2)
+                    else strat in
+      if N.eqb chosen 1 then FExact m
+      else match search_path s c q (3 * k) with
+           | PCached snap => if post_fallback then FCachedOrExact snap m else FPostCached snap m
+           | PExact _ d' => if post_fallback then FExact m else FPostNoFallback d' m
+           | PEmpty => FEmpty
+           | PErr e => FErr e
+           | PPanic => FPanic
+           end
   end.
 
 Fixpoint run (s : st) (ops : list op) : st :=
@@ -241,3 +320,85 @@ Fixpoint run (s : st) (ops : list op) : st :=
   end.
 End Engine.
 
+
+(* ------------------------------------------------------------------ HNSW search, one layer
+   (tensor_store/src/hnsw.rs search_layer / search_layer_greedy / search_with_ef), over an ARBITRARY
+   layer graph `nbrs` and an arbitrary distance table `dist` (the f32 bits of
+   embedding.distance_dense(query, metric) per node).  The two BinaryHeaps are lists with
+   arbitrary `pick` functions (which of several equal or incomparable entries a heap yields is not
+   specified); fuel bounds the loop (every node is expanded at most once).  Construction of the
+   graph is not modelled. *)
+Section Layer.
+Variable nbrs : nat -> list nat.
+Variable dist : nat -> N.
+Variable pick_min pick_max : list (nat * N) -> option ((nat * N) * list (nat * N)).
+Variable ef : nat.
+
+Definition hmem (i : nat) (l : list nat) : bool := existsb (Nat.eqb i) l.
+Definition worst (res : list (nat * N)) : option (nat * N) :=
+  match pick_max res with Some (w, _) => Some w | None => None end.
+
+(* while results.len() > ef { results.pop(); } *)
+Fixpoint trim (fuel : nat) (res : list (nat * N)) : list (nat * N) :=
+  match fuel with
+  | O => res
+  | S f => if Nat.ltb ef (length res)
+           then match pick_max res with Some (_, r) => trim f r | None => res end
+           else res
+  end.
+
+(* the body of `for neighbor_id in neighbor_ids` *)
+Definition explore1 (acc : list nat * list (nat * N) * list (nat * N)) (j : nat)
+  : list nat * list (nat * N) * list (nat * N) :=
+  let '(vis, cand, res) := acc in
+  if hmem j vis then acc
+  else
+    let d := dist j in
+    let add := Nat.ltb (length res) ef
+               || match worst res with Some w => f_lt d (snd w) | None => true end in
+    if add then (j :: vis, (j, d) :: cand, trim (S (length res)) ((j, d) :: res))
+    else (j :: vis, cand, res).
+
+(* `while let Some(current) = candidates.pop()` *)
+Fixpoint layer_loop (fuel : nat) (vis : list nat) (cand res : list (nat * N)) : list (nat * N) :=
+  match fuel with
+  | O => res
+  | S f =>
+    match pick_min cand with
+    | None => res
+    | Some (cur, cand') =>
+      if Nat.leb ef (length res)
+         && match worst res with Some w => f_lt (snd w) (snd cur) | None => false end
+      then res
+      else let '(vis', cand'', res') := fold_left explore1 (nbrs (fst cur)) (vis, cand', res) in
+           layer_loop f vis' cand'' res'
+    end
+  end.
+
+Fixpoint ins_asc (x : nat * N) (l : list (nat * N)) : list (nat * N) :=
+  match l with
+  | [] => [x]
+  | y :: r => if f_lt (snd y) (snd x) then y :: ins_asc x r else x :: y :: r
+  end.
+Definition sort_asc (l : list (nat * N)) : list (nat * N) := fold_right ins_asc [] l.
+
+Definition search_layer (fuel entry : nat) : list (nat * N) :=
+  sort_asc (layer_loop fuel [entry] [(entry, dist entry)] [(entry, dist entry)]).
+
+(* search_layer_greedy: move to a strictly closer neighbour until none is *)
+Fixpoint greedy (fuel cur : nat) : nat :=
+  match fuel with
+  | O => cur
+  | S f =>
+    let '(c', _, changed) :=
+      fold_left (fun acc j => let '(c, cd, ch) := acc in
+                              if f_lt (dist j) cd then (j, dist j, true) else acc)
+                (nbrs cur) (cur, dist cur, false) in
+    if changed then greedy f c' else cur
+  end.
+
+(* search_with_ef at layer 0: take k, convert the distance to a similarity *)
+Variable to_sim : N -> N.
+Definition hnsw_hits (fuel entry k : nat) : list (nat * N) :=
+  map (fun p => (fst p, to_sim (snd p))) (firstn k (search_layer fuel entry)).
+End Layer.
